@@ -12,6 +12,7 @@ CRC *values* are C04's business: check-field positions are masked out of the lay
 """
 from mc import env  # noqa: F401  (must be first)
 from mc import par, spaces
+from mc.hist import observe
 from mc.report import Report, Acc, exc_sig
 
 import itertools
@@ -588,7 +589,7 @@ def rate_kinds():
 # ------------------------------------------------------------------ UDP/IPv4 compressed header --
 def udp_kinds():
     ks = []
-    for udw in (0, 40):
+    for udw in (0, 40, 3):  # 3: a tail that is not a whole number of octets
         for variant, spid0, dpid0 in (("ext0", False, False), ("ext1_src", True, False), ("ext1_dst", False, True),
                                       ("ext2", True, True)):
             layout = [F("ipv4_identification", 16), F("said", 4), F("daid", 4), C(1)]
@@ -788,6 +789,15 @@ def roundtrip_case(kind, vals, acc, detail=None):
     if bits2 != bits:
         acc.violation(f"{kind.name}:second_encode_differs", {**case, "first": got, "second": bits2.to01()},
                       "from_bits(as_bits()).as_bits() != as_bits()")
+    # looking at a PDU (repr, str, ==, len, hash) between two serialisations must not change it
+    try:
+        observe(obj, light=True)
+        observe(back, light=True)
+        if obj.as_bits() != bits or back.as_bits() != bits2:
+            acc.violation(f"{kind.name}:serialisation_changes_after_the_pdu_was_looked_at", case,
+                          "as_bits() differs after repr()/str()/==/len()/hash() on the object")
+    except Exception as e:  # noqa: BLE001
+        acc.violation(f"{kind.name}:exception_after_looking_at_pdu:" + exc_sig(e), case, repr(e))
     # the caller re-uses the buffer it parsed from: the parsed PDU owns its content
     try:
         src = bitarray(got)
@@ -816,7 +826,7 @@ def roundtrip_case(kind, vals, acc, detail=None):
                 bytes_bad = True
                 acc.violation(f"{kind.name}:as_bytes_differs_from_as_bits", {**case, "bytes": by.hex(), "bits": got},
                               "as_bytes() is not the octet packing of as_bits()")
-            elif type(obj).from_bytes(by).as_bits() != bits:
+            elif len(got) % 8 == 0 and type(obj).from_bytes(by).as_bits() != bits:  # (octets cannot carry a length that is not a whole number of octets)
                 bytes_bad = True
                 acc.violation(f"{kind.name}:from_bytes_as_bytes_differs", {**case, "bytes": by.hex(), "bits": got},
                               "from_bytes(as_bytes()).as_bits() != as_bits()")
